@@ -1,3 +1,352 @@
 package main
 
-func genFuncs() {}
+// genFuncs regenerates lean/Stef/Gen/Funcs.lean from go/pkg/types.go.
+//
+// A deliberately tiny Go-subset translator (go/parser + go/ast only, no go/types):
+//
+//   func Name(p1, p2 T) R { stmts }      T in {uint64, int64, bool, float64}, R in {int, bool}
+//   stmt  ::= "if" cond "{" stmts "}" [ "else" ( ifstmt | "{" stmts "}" ) ]  |  "return" expr
+//   cond  ::= param (">" | "<" | ">=" | "<=" | "==" | "!=") param | param(bool) | "!" cond
+//           | cond "&&" cond | cond "||" cond | "(" cond ")" | "true" | "false"
+//   expr  ::= integer literal | "-" integer literal            (R = int)
+//           | cond                                            (R = bool)
+//
+// Every path must end in a return. Anything else (calls, assignments, loops, arithmetic,
+// other types, a parameter compared with a literal, ...) makes the extractor exit non-zero.
+//
+// Typing of the comparison operators is decided by the declared parameter type:
+//   uint64  -> BitVec 64, unsigned order (BitVec.ult / BitVec.ule)
+//   int64   -> BitVec 64, signed order   (BitVec.slt / BitVec.sle)
+//   bool    -> Bool
+//   float64 -> BitVec 64 BIT PATTERN, compared through Stef.Flt.lt / gt / eq (IEEE-754:
+//              NaN unordered, -0 = +0). `!=` is `!(Flt.eq ..)`. `<=`/`>=` on floats are refused.
+
+import (
+	"fmt"
+	"go/ast"
+	"go/token"
+	"strings"
+)
+
+var funcsWanted = []string{
+	"Uint64Compare", "Int64Compare", "BoolCompare", "Float64Compare",
+	"Uint64Equal", "Int64Equal", "BoolEqual", "Float64Equal",
+}
+
+type fnTr struct {
+	name   string
+	fset   *token.FileSet
+	params map[string]string // name -> go type
+	ret    string            // "int" | "bool"
+}
+
+func (t *fnTr) fail(n ast.Node, f string, a ...any) {
+	die("types.go func %s at %s: %s (outside the translated Go subset)", t.name, t.fset.Position(n.Pos()), fmt.Sprintf(f, a...))
+}
+
+func (t *fnTr) paramOf(x ast.Expr) (string, string) {
+	for {
+		p, ok := x.(*ast.ParenExpr)
+		if !ok {
+			break
+		}
+		x = p.X
+	}
+	id, ok := x.(*ast.Ident)
+	if !ok {
+		t.fail(x, "operand %T is not a parameter", x)
+	}
+	ty, ok := t.params[id.Name]
+	if !ok {
+		t.fail(x, "identifier %s is not a parameter", id.Name)
+	}
+	return id.Name, ty
+}
+
+// cond translates a boolean Go expression into a Lean `Bool` term.
+func (t *fnTr) cond(x ast.Expr) string {
+	switch v := x.(type) {
+	case *ast.ParenExpr:
+		return t.cond(v.X)
+	case *ast.Ident:
+		if v.Name == "true" || v.Name == "false" {
+			return v.Name
+		}
+		n, ty := t.paramOf(v)
+		if ty != "bool" {
+			t.fail(x, "parameter %s of type %s used as a condition", n, ty)
+		}
+		return n
+	case *ast.UnaryExpr:
+		if v.Op == token.NOT {
+			return "(!" + t.cond(v.X) + ")"
+		}
+		t.fail(x, "unary operator %s", v.Op)
+	case *ast.BinaryExpr:
+		if v.Op == token.LAND {
+			return "(" + t.cond(v.X) + " && " + t.cond(v.Y) + ")"
+		}
+		if v.Op == token.LOR {
+			return "(" + t.cond(v.X) + " || " + t.cond(v.Y) + ")"
+		}
+		l, lt := t.paramOf(v.X)
+		r, rt := t.paramOf(v.Y)
+		if lt != rt {
+			t.fail(x, "operands of different types %s, %s", lt, rt)
+		}
+		switch lt {
+		case "uint64":
+			switch v.Op {
+			case token.GTR:
+				return fmt.Sprintf("(BitVec.ult %s %s)", r, l)
+			case token.LSS:
+				return fmt.Sprintf("(BitVec.ult %s %s)", l, r)
+			case token.GEQ:
+				return fmt.Sprintf("(BitVec.ule %s %s)", r, l)
+			case token.LEQ:
+				return fmt.Sprintf("(BitVec.ule %s %s)", l, r)
+			case token.EQL:
+				return fmt.Sprintf("(%s == %s)", l, r)
+			case token.NEQ:
+				return fmt.Sprintf("(%s != %s)", l, r)
+			}
+		case "int64":
+			switch v.Op {
+			case token.GTR:
+				return fmt.Sprintf("(BitVec.slt %s %s)", r, l)
+			case token.LSS:
+				return fmt.Sprintf("(BitVec.slt %s %s)", l, r)
+			case token.GEQ:
+				return fmt.Sprintf("(BitVec.sle %s %s)", r, l)
+			case token.LEQ:
+				return fmt.Sprintf("(BitVec.sle %s %s)", l, r)
+			case token.EQL:
+				return fmt.Sprintf("(%s == %s)", l, r)
+			case token.NEQ:
+				return fmt.Sprintf("(%s != %s)", l, r)
+			}
+		case "bool":
+			switch v.Op {
+			case token.EQL:
+				return fmt.Sprintf("(%s == %s)", l, r)
+			case token.NEQ:
+				return fmt.Sprintf("(%s != %s)", l, r)
+			}
+		case "float64":
+			switch v.Op {
+			case token.GTR:
+				return fmt.Sprintf("(Stef.Flt.gt %s %s)", l, r)
+			case token.LSS:
+				return fmt.Sprintf("(Stef.Flt.lt %s %s)", l, r)
+			case token.EQL:
+				return fmt.Sprintf("(Stef.Flt.eq %s %s)", l, r)
+			case token.NEQ:
+				return fmt.Sprintf("(!(Stef.Flt.eq %s %s))", l, r)
+			}
+		}
+		t.fail(x, "operator %s on %s", v.Op, lt)
+	}
+	t.fail(x, "expression %T", x)
+	return ""
+}
+
+func (t *fnTr) retExpr(x ast.Expr) string {
+	if t.ret == "bool" {
+		return t.cond(x)
+	}
+	switch v := x.(type) {
+	case *ast.ParenExpr:
+		return t.retExpr(v.X)
+	case *ast.BasicLit:
+		if v.Kind == token.INT {
+			for _, c := range v.Value {
+				if c < '0' || c > '9' {
+					t.fail(x, "integer literal %s", v.Value)
+				}
+			}
+			return v.Value
+		}
+	case *ast.UnaryExpr:
+		if v.Op == token.SUB {
+			if lit, ok := v.X.(*ast.BasicLit); ok && lit.Kind == token.INT {
+				return "(-" + t.retExpr(lit) + ")"
+			}
+		}
+	}
+	t.fail(x, "return expression %T is not an integer constant", x)
+	return ""
+}
+
+// stmts translates a statement list followed by `rest` (the translation of what follows the
+// enclosing statement, "" if nothing follows). Every path must end in a return.
+func (t *fnTr) stmts(list []ast.Stmt, rest string, ind string) string {
+	if len(list) == 0 {
+		if rest == "" {
+			die("types.go func %s: a path does not end in a return (outside the translated Go subset)", t.name)
+		}
+		return rest
+	}
+	s := list[0]
+	switch v := s.(type) {
+	case *ast.ReturnStmt:
+		if len(v.Results) != 1 {
+			t.fail(s, "return with %d results", len(v.Results))
+		}
+		if len(list) > 1 {
+			t.fail(list[1], "statement after return")
+		}
+		return t.retExpr(v.Results[0])
+	case *ast.IfStmt:
+		if v.Init != nil {
+			t.fail(s, "if with init statement")
+		}
+		after := ""
+		if len(list) > 1 || rest != "" {
+			after = t.stmts(list[1:], rest, ind+"  ")
+		}
+		c := t.cond(v.Cond)
+		then := t.stmts(v.Body.List, after, ind+"  ")
+		var els string
+		switch e := v.Else.(type) {
+		case nil:
+			if after == "" {
+				t.fail(s, "if without else at the end of a block")
+			}
+			els = after
+		case *ast.BlockStmt:
+			els = t.stmts(e.List, after, ind+"  ")
+		case *ast.IfStmt:
+			els = t.stmts([]ast.Stmt{e}, after, ind+"  ")
+		default:
+			t.fail(s, "else %T", v.Else)
+		}
+		return fmt.Sprintf("if %s then %s\n%selse %s", c, then, ind, els)
+	}
+	t.fail(s, "statement %T", s)
+	return ""
+}
+
+func leanName(goName string) string { return strings.ToLower(goName[:1]) + goName[1:] }
+
+func genFuncs() {
+	fset, f := parseFile("go/pkg/types.go")
+	decls := map[string]*ast.FuncDecl{}
+	for _, d := range f.Decls {
+		if fd, ok := d.(*ast.FuncDecl); ok && fd.Recv == nil {
+			decls[fd.Name.Name] = fd
+		}
+	}
+	var sb strings.Builder
+	sb.WriteString("/- GENERATED by /verif/extract (funcs.go) from go/pkg/types.go. Do not edit.\n")
+	sb.WriteString("   uint64 -> BitVec 64 unsigned, int64 -> BitVec 64 signed, bool -> Bool,\n")
+	sb.WriteString("   float64 -> BitVec 64 bit pattern compared through Stef.Flt (IEEE-754). -/\n")
+	sb.WriteString("import Stef.Flt\n\nnamespace Stef.Gen\n\n")
+	leanTy := map[string]string{"uint64": "BitVec 64", "int64": "BitVec 64", "float64": "BitVec 64", "bool": "Bool"}
+	for _, name := range funcsWanted {
+		fd, ok := decls[name]
+		if !ok {
+			die("types.go: function %s not found", name)
+		}
+		if fd.Body == nil {
+			die("types.go: function %s has no body", name)
+		}
+		if fd.Type.TypeParams != nil {
+			die("types.go: function %s is generic (outside the translated Go subset)", name)
+		}
+		t := &fnTr{name: name, fset: fset, params: map[string]string{}}
+		var ps []string
+		for _, fl := range fd.Type.Params.List {
+			id, ok := fl.Type.(*ast.Ident)
+			if !ok || leanTy[id.Name] == "" {
+				t.fail(fl, "parameter type is not uint64/int64/bool/float64")
+			}
+			if len(fl.Names) == 0 {
+				t.fail(fl, "unnamed parameter")
+			}
+			for _, n := range fl.Names {
+				if n.Name == "_" {
+					t.fail(fl, "blank parameter")
+				}
+				t.params[n.Name] = id.Name
+				ps = append(ps, fmt.Sprintf("(%s : %s)", n.Name, leanTy[id.Name]))
+			}
+		}
+		if fd.Type.Results == nil || len(fd.Type.Results.List) != 1 || len(fd.Type.Results.List[0].Names) != 0 {
+			die("types.go: function %s must have exactly one unnamed result", name)
+		}
+		rid, ok := fd.Type.Results.List[0].Type.(*ast.Ident)
+		if !ok || (rid.Name != "int" && rid.Name != "bool") {
+			die("types.go: function %s: result type must be int or bool", name)
+		}
+		t.ret = rid.Name
+		rty := "Int"
+		if t.ret == "bool" {
+			rty = "Bool"
+		}
+		var ptys []string
+		for _, fl := range fd.Type.Params.List {
+			for range fl.Names {
+				ptys = append(ptys, fl.Type.(*ast.Ident).Name)
+			}
+		}
+		body := t.stmts(fd.Body.List, "", "  ")
+		fmt.Fprintf(&sb, "/-- go/pkg/types.go `%s(%s) %s` -/\n", name, strings.Join(ptys, ", "), t.ret)
+		fmt.Fprintf(&sb, "def %s %s : %s :=\n  %s\n\n", leanName(name), strings.Join(ps, " "), rty, body)
+	}
+	// The string comparators are modelled by hand (Stef/Cmp.lean: lexicographic byte order, which is
+	// what strings.Compare computes). The tie is that they still are exactly that one call.
+	wantCall := map[string]string{
+		"StringCompare": "strings.Compare(left,right)",
+		"BytesCompare":  "strings.Compare(string(left),string(right))",
+		"StringEqual":   "left==right",
+		"BytesEqual":    "left==right",
+	}
+	for _, name := range []string{"StringCompare", "BytesCompare", "StringEqual", "BytesEqual"} {
+		fd, ok := decls[name]
+		if !ok || fd.Body == nil || len(fd.Body.List) != 1 {
+			die("types.go: %s is not a single return statement (hand model Stef.strCompare no longer tied)", name)
+		}
+		rs, ok := fd.Body.List[0].(*ast.ReturnStmt)
+		if !ok || len(rs.Results) != 1 {
+			die("types.go: %s is not a single return statement (hand model Stef.strCompare no longer tied)", name)
+		}
+		got := exprString(rs.Results[0])
+		if got != wantCall[name] {
+			die("types.go: %s returns `%s`, expected `%s` (hand model Stef.strCompare no longer tied)", name, got, wantCall[name])
+		}
+		var pn []string
+		for _, fl := range fd.Type.Params.List {
+			for _, n := range fl.Names {
+				pn = append(pn, n.Name)
+			}
+		}
+		if strings.Join(pn, ",") != "left,right" {
+			die("types.go: %s parameters are %v, expected left,right", name, pn)
+		}
+		fmt.Fprintf(&sb, "-- go/pkg/types.go `%s` = `%s` (checked by the extractor; modelled by hand in Stef/Cmp.lean)\n", name, got)
+	}
+	sb.WriteString("\nend Stef.Gen\n")
+	writeOut("Funcs.lean", sb.String())
+}
+
+// exprString prints the small expressions checked above without spaces.
+func exprString(x ast.Expr) string {
+	switch v := x.(type) {
+	case *ast.Ident:
+		return v.Name
+	case *ast.SelectorExpr:
+		return exprString(v.X) + "." + v.Sel.Name
+	case *ast.ParenExpr:
+		return "(" + exprString(v.X) + ")"
+	case *ast.BinaryExpr:
+		return exprString(v.X) + v.Op.String() + exprString(v.Y)
+	case *ast.CallExpr:
+		var as []string
+		for _, a := range v.Args {
+			as = append(as, exprString(a))
+		}
+		return exprString(v.Fun) + "(" + strings.Join(as, ",") + ")"
+	}
+	return fmt.Sprintf("<%T>", x)
+}
+
